@@ -262,6 +262,52 @@ def run(ctx):
             ctx.ob("C19.c", qn, prog.exc_is(exc, CLOUDERR), f"API error codes raise {exc.split('.')[-1]} (a CloudError)", func=qn, file=file, node=node,
                    fail=f"API error codes raise {exc}, not a CloudError")
             ctx.count("api_errors")
+    # the result is handed out exactly when the server said errorCode 0; any other code is the ApiError (a conforming client does not use the
+    # `result` of a failed call, and does not turn a success into an error)
+    pf = ctx.fn(f"{NH}._parse_response")
+    pfs = summarize(prog, pf)
+
+    def code_zero(a):
+        a = strip(a)
+        return a[0] == "cmp" and a[1] == "==" and is_const(a[3], 0) and any(x[0] == "sub" and strip(x[2]) == ("const", "errorCode") for x in subterms(a[2]))
+    rets_ = [(pc, t) for pc, t, n_, _st in pfs.returns if n_ is not None]
+    ok_pr = bool(rets_) and all(any(code_zero(a) for a in atoms(pc)) and strip(t)[0] == "sub" and strip(strip(t)[2]) == ("const", "result") for pc, t in rets_) \
+        and any(any(strip(a)[0] == "cmp" and strip(a)[1] == "!=" and code_zero(("cmp", "==", strip(a)[2], strip(a)[3])) for a in atoms(pc)) for pc, _e, _n, _st in pfs.raises) \
+        and not any(n_ is None for _pc, _t, n_, _st in pfs.returns)
+    ctx.ob("C19.c", pf.qual, ok_pr, "_parse_response returns body['result'] exactly when errorCode == 0 and raises otherwise", func=pf.qual, file=file, construct="errorCode test",
+           fail="_parse_response no longer returns the result exactly for errorCode 0 (a failed call's result is used, a success is reported as an error, or None is returned)")
+    # HTTP failures surface as cloud errors: the status check stands between the post and the parser on every path
+    from ..absint import EventAnalysis, run_events as _run_events
+    pr_ = ctx.fn(f"{BASE}._post_request")
+
+    def on_stmt_rs(node, st):
+        if isinstance(node, (ast.If, ast.While, ast.For, ast.AsyncFor, ast.Try, ast.With, ast.AsyncWith)):
+            return []
+        if any(isinstance(c, ast.Call) and isinstance(c.func, ast.Attribute) and c.func.attr == "raise_for_status" for c in ast.walk(node)):
+            return ["status_checked"]
+        return []
+    ea_rs = EventAnalysis(must=True, on_stmt=on_stmt_rs, kill=lambda node, e: e == "status_checked" and not isinstance(node, (ast.If, ast.While, ast.For, ast.Try, ast.With, ast.AsyncWith))
+                          and any(isinstance(c, ast.Call) and isinstance(c.func, ast.Attribute) and c.func.attr == "post" for c in ast.walk(node)))
+    _run_events(prog, pr_, ea_rs)
+    parse_stmts = [n_ for n_ in ea_rs.at if isinstance(n_, ast.stmt) and not isinstance(n_, (ast.If, ast.While, ast.For, ast.Try, ast.With, ast.AsyncWith, ast.AsyncFor))
+                   and any(isinstance(c, ast.Call) and isinstance(c.func, ast.Attribute) and c.func.attr == "_parse_response" for c in ast.walk(n_))]
+    ctx.count("parse_sites", len(parse_stmts))
+    ctx.ob("C19.c", pr_.qual, bool(parse_stmts) and all("status_checked" in ea_rs.at[n_] for n_ in parse_stmts), "every response is status-checked (raise_for_status) before it is parsed",
+           func=pr_.qual, file=file, construct="r.raise_for_status()", fail="a response can reach the parser without the HTTP status check: an HTTP failure is parsed as if it were an API reply "
+                                                                            "(and surfaces as a JSON / key error instead of a CloudError)")
+    # login really logs in: it returns early only when a session exists
+    early = [(pc, n_) for pc, _t, n_, _st in ls.returns if n_ is not None]
+
+    def has_session(pc):
+        from ..facts import alternatives as _alts
+        for c_, tr_ in pc:
+            alts = _alts(strip(c_), tr_)
+            if alts and all(any(strip(a) in (("attr", ("param", sp), "_session"), ("attr", ("param", sp), "_session_id")) for a in alt) for alt in alts):
+                return True
+        return False
+    ctx.ob("C19.a", lg.qual, all(has_session(pc) for pc, _n in early), "login returns without a request only when a session already exists", func=lg.qual, file=file,
+           construct="early return", node=early[0][1] if early else None,
+           fail="login can return without logging in although no session exists: later requests carry an empty session id")
     # ---------------------------------------------------------------- C19.a (shared client) only a logged-in client is cached
     # Discover._get_cloud keeps the client for every later device of the run: caching it before login() has completed hands later
     # devices a client without a session after one transient login failure.
